@@ -49,8 +49,9 @@ TProj ==
   /\ \A db \in DOMAIN Line.writable : Line.writable[db] = (db \in DOMAIN chans)
   /\ UNCHANGED vars
 
-\* over how many shards the rows of a batch were hashed (at least: the highest shard that received a chunk)
-TRoute == Ev("Route") /\ Line.db \in DOMAIN chans /\ Line.count <= chans[Line.db].n /\ Line.count >= 1 /\ UNCHANGED vars
+\* over how many shards the rows of a batch of 64 series were hashed (the highest shard that received a chunk + 1; that
+\* a shard of the routing count gets none of 64 series has probability below 2^-30)
+TRoute == Ev("Route") /\ Line.db \in DOMAIN chans /\ Line.count = chans[Line.db].n /\ UNCHANGED vars
 
 TraceNext == TReset \/ TPutDb \/ TDropDb \/ TBrokerUp \/ TBrokerDown \/ TPublish \/ TProc \/ TProj \/ TRoute
 TraceSpec == TraceInit /\ [][TraceNext]_tvars
